@@ -68,6 +68,9 @@ CLAIMS = {
     "C06": ("other", "error-after-mutation analysis: bottom-up may-mutate / may-fail summaries over MIR, CFG reachability from mutation points to Err exits, automatic discharge by may-fail and pre-validation twins, reviewed table for infeasible pairs, known-findings file for confirmed leftovers",
             "Enumerates every (mutation, later error return) pair in the apply path (apply_changes*, load_incremental*, merge*, sync receive, BatchApply) and in the transaction operations, and requires each to be discharged automatically, reviewed as infeasible (tables/eam.tsv, one reason per row) or listed as a known finding; also proves that the fallible patch-log migration precedes every mutation in the admission function.",
             "Level 'other': soundness of the reviewed rows rests on the stated reasons. A new error exit after a mutation is reported until reviewed (that is the price of the rule). Fired on the pinned tree: PatchLogMismatch after actors were inserted and changes popped (fix: 93cdd6d98); mark() failing after inserting its begin op (fix: f1cd5c1c9); a rejected duplicate-seq change prunes the pending queue (known finding, not repaired).", "DESIGN.md §3 C06"),
+    "C15": ("other", "panic-discipline inventories over type-checked MIR: (R7a) Result::unwrap/expect classified by error type and source callee; (R7b) every panic-capable construct (bounds/division asserts, slice/str indexing, split_at, copy_from_slice, macro panics, Option::unwrap) in the frozen parse layer and the apply-side functions where triage showed wire content arriving, discharged by dominance patterns (length guard, divisor guard, constant index, find()-derived str index) or a reviewed row; (R6d) must-validate-before-trust: a validating Column::load of the same bytes and type dominates every trusting streaming decoder outside hexane",
+            "Every one of the enumerated sites is discharged by a local pattern, by a reviewed row (tables/unwrap_result.tsv, tables/panic_sites.tsv, one reason each) or is a listed known finding with a concrete input; a new unwrap of an error channel, a new unguarded index/split in the parse layer, or a new trusting decoder over unvalidated wire bytes is reported.",
+            "Level 'other': an inventory with reviewed rows, not a proof of panic-freedom. Not decided: panics in the op-set / index machinery beyond the listed functions, debug-only overflow asserts, hangs and allocation (C17). Fired on the pinned tree: 11 defects repaired by fix: commits (import_obj hex, Cursor::from_str, OpId counters, change-metadata columns, bundle columns, value length, actor indexes x2, out-of-order deps, unbundle unwrap, duplicate ops); 10 apply-side panic sites reachable with well-formed but semantically invalid changes are known findings (BatchApply has no error channel; not a small repair).", "DESIGN.md §3 C15"),
     "C03": ("other", "the error-after-mutation analysis of C06 restricted to the editing calls C03 lists, plus agreement of the op set's Action->ObjType table with the make-actions the encoder writes",
             "For put, put_object, insert, insert_object, delete, increment, splice, splice_text, mark, unmark, split_block, join_block: every (mutation, later error) pair in the functions they reach is discharged, reviewed or a known finding; and every object kind put_object can create is one the op set registers.",
             "Decides only the last sentence of C03 (an invalid call changes nothing) and the object-registration clause; the sequential effect itself is runtime-valued. Known finding: ObjType::Table objects are never registered (put_object returns an unusable id).", "DESIGN.md §3 C03"),
